@@ -52,6 +52,7 @@ def gen_history(seed, universe, cfg):
     for r in universe:
         by_target.setdefault(r["target"], []).append(r)
 
+    seen_funcs = []
     threads = []  # each: list of actions in order
     shared_ctx = {}  # target -> cid list
     ctx_funcs = {}  # cid -> functions requested on it so far
@@ -90,6 +91,14 @@ def gen_history(seed, universe, cfg):
         if t not in by_target:
             continue
         r = rq.choice(by_target[t])
+        if seen_funcs and rq.random() < 0.25:
+            # another variant (signature, context parameters, paths, options) of a function this process has already
+            # been asked for: same name, different graph, usually in another context
+            f0 = rq.choice(seen_funcs)
+            variants = [q for q in by_target[t] if q["func"] == f0]
+            if variants:
+                r = rq.choice(variants)
+        seen_funcs.append(r["func"])
         if cfg.get("generated_programs") and rq.random() < cfg["generated_programs"]:
             r = generated_request(rq, t)
         debug = rq.choice(cfg.get("debug_levels", {}).get(t, [0]))
@@ -108,7 +117,8 @@ def gen_history(seed, universe, cfg):
                 earlier = ctx_funcs.get(cid, [])
                 if earlier and rq.random() < 0.5:
                     f0 = rq.choice(earlier)
-                    same = [q for q in by_target[t] if q["func"] == f0 or q["func"].split("_")[-1] == f0.split("_")[-1]]
+                    same = [q for q in by_target[t] if q["func"] == f0 or q["func"].split("_")[-1] == f0.split("_")[-1]
+                            or (f0.startswith("stress_pair_") and q["func"].startswith("stress_pair_"))]
                     if same:
                         r = rq.choice(same)
             ctx_funcs.setdefault(cid, []).append(r["func"])
@@ -150,6 +160,20 @@ def gen_history(seed, universe, cfg):
                 # users drop a context when they are done with it: its expressions die and their addresses
                 # are recycled by whatever is built next
                 acts.append(["drop", cid])
+            threads.append(acts)
+
+    # scripted: a print that may fail half-way (before expansion), then another function on the same context
+    if cfg.get("scenarios") and kn.random() < cfg["scenarios"]:
+        t = rq.choice([x for x in cfg["targets"] if x in by_target])
+        progs = [q for q in by_target[t] if q["func"].startswith("stress_") and not q.get("params")]
+        if len(progs) >= 2:
+            f = rq.choice(progs)
+            fam = [q for q in progs if q["func"] != f["func"] and q["sig"] == f["sig"]]
+            pair = [q for q in fam if f["func"].startswith("stress_pair_") and q["func"].startswith("stress_pair_")]
+            g = rq.choice(pair or fam or progs)
+            cid, r1, r2 = new_cid(), new_rid(), new_rid()
+            acts = [["ctx", cid, t], ["trace", r1, cid, t, f["func"], f["sig"]], ["print", r1, 0, "bg", "raw"]]
+            acts += steps(r2, cid, g, 0, "bg", False, False)
             threads.append(acts)
 
     # two requests on unrelated contexts whose prints run concurrently in two threads of this process, with the
